@@ -200,6 +200,12 @@ def corpus(tier):
                 continue
             yield "func-type", "", ("function fp(p:%s, q) return string is begin w = typeof(p) + typeof(q); p = %s; q = %s; return w + typeof(p) + typeof(q); end; "
                                     "print fp(%s, %s); print fp(%s, %s);" % (t, VAL[t2], VAL[t2], VAL[t], VAL[t], VAL[t], VAL[t]))
+            # ... and a use, ahead of the assignment, that only compiles with the declared type
+            USE = {"boolean": "str(not p)", "integer": "str(p + 1)", "decimal": "str(round(p * 2.0))", "complex": "str(imag(p))", "string": 'p + "x"', "bytes": "str(p.count())",
+                   "tuple": "str(p@1)", "table": "str(p.count())"}
+            if t in USE:
+                yield "func-type", "", ("function fu(p:%s) return string is begin w = %s; p = %s; return w + typeof(p); end; print fu(%s); print fu(%s);" % (
+                    t, USE[t], VAL[t2], VAL[t], VAL[t]))
     misc = MISC
     for m in misc:
         yield "misc", "", m
